@@ -88,7 +88,71 @@ def main():
         E = engine()
         agree(E, npmodels.concat_sarr(E, [sym_array(E, v, "v"), sym_array(E, w, "w")]), np.concatenate([np.array(v, dtype=int), np.array(w, dtype=int)]), f"concat {v} {w}")
     print(f"np.pad / np.delete / np.concatenate (symbolic lengths): {cases} random cases each, mismatches: {bad}")
+    gather_cases(cases, rng)
     return 1 if bad else 0
+
+
+def gather_cases(cases, rng):
+    """concrete-shape arrays (pyvc/narr.py): `a[idx]` with an integer index ARRAY -- empty (nothing selected by a mask: the result is an empty
+    array of a's kind, not an IndexError), with symbolic entries pinned to the numbers of the case (in range, negative, out of range ->
+    IndexError), and the gather of a gather `a[a[mask]]` of cat_tree's refactored child list"""
+    global bad
+    from pyvc import narr
+    from pyvc.values import NArr
+
+    def run(E, a, idx):
+        try:
+            return narr.getitem(E, a, idx)
+        except ProgExc as e:
+            return e.cls
+
+    for _ in range(cases):
+        v = [rng.randint(-5, 9) for _ in range(rng.randint(1, 6))]
+        n = len(v)
+        ix = [rng.randint(-n - 1, n) for _ in range(rng.randint(0, 4))]
+        a_np = np.array(v)
+        try:
+            want = a_np[np.array(ix, dtype=np.intp)]
+        except IndexError:
+            want = IndexError
+        for symbolic in (False, True):
+            E = engine()
+            E.strict_index = False  # the verifier's default turns the bounds of a symbolic index into a safety obligation; here the program semantics (wrap-around, IndexError) is what is compared
+            items = []
+            for x in ix:
+                if symbolic:
+                    sx = fresh("int", "ix")
+                    E.assume(sx.z == x)
+                    items.append(sx)
+                else:
+                    items.append(x)
+            got = run(E, NArr((n,), list(v), "int"), NArr((len(ix),), items, "int"))
+            if want is IndexError or got is IndexError:
+                if want is not got:
+                    bad += 1
+                    print("MISMATCH gather raises", v, ix, symbolic, got)
+                continue
+            s = z3.Solver()
+            s.add(*E.pc)
+            from pyvc.values import to_z3
+            ok = isinstance(got, NArr) and got.kind == "int" and got.shape == want.shape
+            if ok and len(ix):
+                s.add(z3.Or(*[to_z3(g, "int") != int(w) for g, w in zip(got.items, want)]))
+                ok = s.check() == z3.unsat
+            if not ok:
+                bad += 1
+                print("MISMATCH gather", v, ix, symbolic, got)
+        # a[a[mask]] where a holds positions and the mask selects nothing / something
+        m = [rng.random() < 0.4 for _ in range(n)]
+        E = engine()
+        pos = NArr((n,), list(range(n)), "int")
+        ch = narr.getitem(E, pos, NArr((n,), m, "bool"))
+        got = run(E, pos, ch)
+        want = np.arange(n)[np.arange(n)[np.array(m)]]
+        if not (isinstance(got, NArr) and got.kind == "int" and [int(x) for x in got.items] == want.tolist() and isinstance(ch, NArr) and ch.kind == "int"):
+            bad += 1
+            print("MISMATCH gather of a mask gather", n, m, got)
+    print(f"a[idx] with integer index arrays (empty / symbolic entries / gather of a mask gather): {cases} random cases, mismatches so far: {bad}")
 
 
 if __name__ == "__main__":
